@@ -7,10 +7,12 @@
    receivers/base stations): [inv] requires [is_dc (fam _) = false].  DIRECT-CURRENT (potential/current electrode) pairs have
    their own, weaker invariant [dinv] (C20_dc_* below): for electrodes the code does NOT keep the two metadata dictionaries
    equal (finding dc-shared-dict-partner-not-stored), so what is proved is that the LINK persists — whatever either electrode
-   reads and whatever is stored for either names both.  The copy theorems (C20_copy_links_copies, C20_copy_of_copy) exclude the
-   LARGE-LOOP families ([is_large (fam ea) = false]) and electrodes; large-loop copies and electrode copies (dc_copy, the
-   large-loop branch of em_copy) are covered by the correspondence — evaluated on every generated history and compared with the
-   implementation — and by the oracle, not by theorems.
+   reads and whatever is stored for either names both.  The copy theorems C20_copy_links_copies, C20_copy_of_copy and
+   C20_copy_then_edit_isolated are stated for the families that are not LARGE-LOOP ([is_large (fam ea) = false]);
+   C20_copy_links_copies_large states the same conclusion for large-loop pairs whose two sides both carry the "Tx ID" property
+   (the only large-loop case in which the code copies the partner at all; without the property the copy has no partner —
+   finding copy-without-id-property-drops-partner).  Electrode copies (dc_copy) are covered by the correspondence — evaluated
+   on every generated history and compared with the implementation — and by the oracle, not by theorems.
 
    [inv s w u1 u2] : the entities u1, u2 of workspace w exist with opposite roles, the stored metadata of both is the same
    dictionary fd, fd names u1 under u1's link key and u2 under u2's, and whichever of the two holds a cached dict reads
@@ -65,6 +67,22 @@ Theorem C20_copy_links_copies : forall s w ua ub ea tw mask s' uc,
     /\ keys_apart w ua ub tw uc uc2 /\ cells_apart s' w ua ub tw uc uc2.
 Proof. exact copy_links_copies. Qed.
 Print Assumptions C20_copy_links_copies.
+
+(* The same for LARGE-LOOP pairs (ground / airborne fixed-loop TEM and FEM) whose receivers and transmitters both carry the
+   "Tx ID" property: the partner is copied whole (the mask applies to the copied side only), the receivers' own-property entry
+   is written before the link when the receivers are copied and after it when the transmitters are; the result is again a new
+   linked pair satisfying the invariant, with the source pair untouched and no shared dictionary cell. *)
+Theorem C20_copy_links_copies_large : forall s w ua ub ea eb tw mask s' uc,
+  wf s -> inv s w ua ub -> get_ent w ua (ents s) = Some ea -> get_ent w ub (ents s) = Some eb ->
+  is_large (fam ea) = true -> ids ea = true -> ids eb = true ->
+  (forall fd, sees s ea = Some fd -> link_keys_hold_uids fd) ->
+  em_copy s ea tw mask = Ok (s', uc) ->
+  exists uc2,
+    inv s' tw uc uc2 /\ inv s' w ua ub /\ wf s'
+    /\ get_ent tw uc (ents s) = None /\ get_ent tw uc2 (ents s) = None /\ uc <> uc2
+    /\ keys_apart w ua ub tw uc uc2 /\ cells_apart s' w ua ub tw uc uc2.
+Proof. exact copy_links_copies_large. Qed.
+Print Assumptions C20_copy_links_copies_large.
 
 (* A copy of a copy: again a new linked pair, distinct from the first copy's pair and from the originals. *)
 Theorem C20_copy_of_copy : forall s w ua ub ea tw mask s1 uc c1 tw2 mask2 s2 ucc,
@@ -140,6 +158,19 @@ Example C20_dc_nonvacuous :
   exists s, run s0 h_dc = Ok s /\ dinv s false 1%N 2%N
     /\ dinv (fold_left (dstep false 1%N 2%N) [DEdit true 24 3%Z; DCrs false 7%Z 8%Z; DReopen; DLink false] s) false 1%N 2%N.
 Proof. exact dinv_nonvacuous. Qed.
+
+(* non-vacuity of the large-loop copy theorem, from either side: its hypotheses hold on a linked large-loop pair with "Tx ID"
+   properties and both copies succeed *)
+Example C20_large_nonvacuous :
+  exists s ea eb s1 s2,
+    run s0 h_large = Ok s /\ wf s /\ inv s false 1%N 3%N
+    /\ get_ent false 1%N (ents s) = Some ea /\ get_ent false 3%N (ents s) = Some eb
+    /\ is_large (fam ea) = true /\ ids ea = true /\ ids eb = true
+    /\ (forall fd, sees s ea = Some fd -> link_keys_hold_uids fd)
+    /\ (forall fd, sees s eb = Some fd -> link_keys_hold_uids fd)
+    /\ em_copy s ea false None = Ok (s1, 5%N) /\ map uid (ents s1) = [1; 3; 5; 7]%N
+    /\ em_copy s eb true None = Ok (s2, 3%N) /\ map uid (ents s2) = [1; 3; 3; 1]%N.
+Proof. exact copy_large_nonvacuous. Qed.
 
 (* non-vacuity: the history create rx, create tx, link establishes the invariant and well-formedness; on that state the
    hypotheses of the copy theorem hold and the copy succeeds *)
